@@ -78,6 +78,38 @@ def collect(prop: str) -> tuple[dict, list]:
     return summary, problems
 
 
+def whole_tree_variants(prop: str, baseline: list) -> tuple[dict, list]:
+    """Run the rule set on the two behaviour-preserving whole-tree variants (fv/variants.py) and compare every obligation
+    (rule, construct, status) with the run on the tree itself.  Any difference is a checker defect (problem kind `noisy`)."""
+    import tempfile as _tf
+
+    from . import variants
+
+    base = sorted((o.rule, o.construct, o.status) for o in baseline)
+    summary: dict = {}
+    problems: list = []
+    mod = importlib.import_module(f"fv.rules.{prop.lower()}")
+    for kind, make in (("rename-locals", variants.make_rename), ("hoist-arguments", variants.make_extract)):
+        tmp = Path(_tf.mkdtemp(prefix="fvvar_"))
+        try:
+            n = make(REPO, tmp)
+            rep = Report(prop, "selftest")
+            try:
+                mod.run(Repo(tmp), rep, "quick")
+                got = sorted((o.rule, o.construct, o.status) for o in rep.obs)
+                same = got == base
+                diff = [x for x in got if x not in base][:2] + [x for x in base if x not in got][:2]
+                summary[kind] = f"{n} edits; obligations {'identical' if same else 'DIFFER: ' + str(diff)[:200]}"
+                if not same:
+                    problems.append((f"variant:{kind}", "noisy", str(diff)[:200]))
+            except AnalysisError as e:
+                summary[kind] = f"{n} edits; analysis error: {e}"
+                problems.append((f"variant:{kind}", "noisy", f"analysis-error: {e}"))
+        finally:
+            shutil.rmtree(tmp, ignore_errors=True)
+    return summary, problems
+
+
 def run_for(prop: str) -> int:
     try:
         from . import mutants
